@@ -22,6 +22,8 @@ Inductive ty :=
 
 Record sdef := mkS { s_name : string; s_nparams : nat; s_fields : list ty; s_pub : bool; s_future : bool }.
 Record idef := mkI { i_trait : trait; i_target : string; i_bounds : list (nat * trait) }.
+(* impl of a crate-declared trait (e.g. `Timer`) for a type, with the auto-trait bounds it demands *)
+Record timpl := mkT { t_trait : string; t_target : string; t_bounds : list (nat * trait) }.
 
 Record bits := mkB { b_send : bool; b_sync : bool; b_unpin : bool }.
 Definition ball : bits := mkB true true true.
@@ -84,6 +86,11 @@ Section Eval.
 End Eval.
 
 (* all assignments of (Send, Sync, Unpin) bits to n parameters *)
+(* does `target<env>` implement the crate-declared trait `tr` according to the impls read from the source *)
+Definition timpl_holds (tis : list timpl) (tr target : string) (env : list bits) : bool :=
+  existsb (fun ti => String.eqb (t_trait ti) tr && String.eqb (t_target ti) target &&
+                     forallb (fun p => bget (snd p) (nth (fst p) env (mkB false false false))) (t_bounds ti)) tis.
+
 Definition all_bits : list bits :=
   [mkB true true true; mkB true true false; mkB true false true; mkB true false false;
    mkB false true true; mkB false true false; mkB false false true; mkB false false false].
